@@ -755,11 +755,112 @@ def front_end_std_hash(crates_root):
     return hits
 
 
+
+# --------------------------------------------------------------------------------------------------
+# Second table: environment inputs (everything besides hash seeds through which the process, the
+# machine, the file system, the clock or the memory layout can reach the compile/execute path)
+# --------------------------------------------------------------------------------------------------
+ENV_PATTERNS = [
+    ("threadLocal", r"\bthread_local\s*!"),
+    ("staticMut", r"\bstatic\s+mut\b"),
+    ("staticInterior", r"\bstatic\s+[A-Za-z_][A-Za-z0-9_]*\s*:\s*[^=;]*\b(Mutex|RwLock|Atomic[A-Za-z0-9]+|OnceLock|OnceCell|RefCell|Cell|Lazy|LazyLock|UnsafeCell|Condvar)\b"),
+    ("staticInterior", r"\blazy_static\s*!"),
+    ("addressUse", r"\.\s*as_ptr\s*\(|\.\s*as_mut_ptr\s*\(|\bas\s+\*\s*(const|mut)\b|\bptr\s*::\s*addr_of|\b(Arc|Rc)\s*::\s*as_ptr\b|\baddr\s*\(\s*\)"),
+    ("envRead", r"\benv\s*::\s*(current_dir|var|var_os|vars|vars_os|args|args_os|temp_dir|home_dir|current_exe|set_var|set_current_dir)\b|\benv!\s*\(|\boption_env!\s*\("),
+    ("fsAccess", r"\bcanonicalize\s*\(|\bfs\s*::\s*(read|write|read_to_string|read_dir|read_link|create_dir|create_dir_all|remove_file|remove_dir|remove_dir_all|rename|copy|metadata|symlink_metadata)\s*\(|\bFile\s*::\s*(open|create)\b|\bOpenOptions\s*::\s*new\b|\.\s*(exists|is_file|is_dir|is_symlink)\s*\(\s*\)"),
+    ("wallClock", r"\b(SystemTime|Instant)\s*::\s*now\b|\b(Utc|Local)\s*::\s*now\b|\.\s*elapsed\s*\(\s*\)"),
+    ("processId", r"\bprocess\s*::\s*id\s*\("),
+    ("threadId", r"\bthread\s*::\s*current\s*\("),
+    ("threadSpawn", r"\bthread\s*::\s*(spawn|scope|Builder)\b|\brayon\b|\btokio\s*::\s*spawn\b"),
+    ("randomness", r"\bRandomState\b|\brand\s*::|\bgetrandom\b|\bfastrand\b|\bDefaultHasher\b"),
+    ("machineInfo", r"\bavailable_parallelism\b|\bnum_cpus\b|\bhostname\b|\bcfg!\s*\(\s*target_"),
+]
+ENV_RE = [(k, re.compile(p)) for (k, p) in ENV_PATTERNS]
+
+
+def blank_test_items(code):
+    """Blank `#[cfg(test)]`-gated modules and functions (test code is not on the compile/execute path)."""
+    out = list(code)
+    for m in re.finditer(r"#\s*\[\s*cfg\s*\(\s*test\s*\)\s*\]", code):
+        rest = code[m.end():]
+        im = re.match(r"(?:\s*#\s*\[[^\]]*\])*\s*(?:pub(?:\s*\([^)]*\))?\s+)?(?:mod|fn|impl|use|static|const|struct|enum)\b[^{;]*([{;])", rest, re.S)
+        if not im:
+            continue
+        start = m.start()
+        if im.group(1) == ";":
+            end = m.end() + im.end()
+        else:
+            ob = m.end() + im.end() - 1
+            try:
+                end = match_brace(code, ob) + 1
+            except ScanError:
+                continue
+        for j in range(start, end):
+            if out[j] != "\n":
+                out[j] = " "
+    return "".join(out)
+
+
+def env_inputs(crates_root, runtime_src):
+    """Rows (file, line, kind, fn, text) of environment inputs in the scanned part of trust-runtime and in
+    the front-end crates.  File names are relative to `crates/`."""
+    files = []
+    for d in SCAN_DIRS:
+        full = os.path.join(runtime_src, d)
+        for dirpath, dirs, names in os.walk(full):
+            dirs.sort()
+            if os.path.basename(dirpath) == "tests":
+                continue
+            for f in sorted(names):
+                if f.endswith(".rs") and not f.startswith("test") and f != "tests.rs":
+                    files.append(os.path.join(dirpath, f))
+    for f in SCAN_FILES:
+        files.append(os.path.join(runtime_src, f))
+    for rel_root in FRONT_END:
+        root = os.path.join(crates_root, rel_root)
+        for dirpath, dirs, names in os.walk(root):
+            dirs.sort()
+            if os.path.basename(dirpath) == "tests":
+                continue
+            for f in sorted(names):
+                if f.endswith(".rs") and not f.startswith("test") and f != "tests.rs":
+                    files.append(os.path.join(dirpath, f))
+    rows = []
+    for full in files:
+        raw = open(full, encoding="utf-8").read()
+        code = blank_test_items(blank_noncode(raw))
+        raw_lines = raw.split("\n")
+        rel = os.path.relpath(full, crates_root)
+        fns = [(m.start(), m.group(1)) for m in re.finditer(r"\bfn\s+(%s)" % IDENT, code)]
+        seen = set()
+        for kind, rx in ENV_RE:
+            for m in rx.finditer(code):
+                ln = line_of(code, m.start())
+                if (ln, kind) in seen:
+                    continue
+                seen.add((ln, kind))
+                fn = "-"
+                for (pos, name) in fns:
+                    if pos <= m.start():
+                        fn = name
+                    else:
+                        break
+                rows.append({"file": rel, "line": ln, "kind": kind, "fn": fn, "text": raw_lines[ln - 1].strip()})
+        # `{:p}` lives inside string literals, which are blanked: look at the raw text of non-test lines
+        for i, line in enumerate(raw_lines, 1):
+            if "{:p}" in line and code.split("\n")[i - 1].strip():
+                rows.append({"file": rel, "line": i, "kind": "addressUse", "fn": "-", "text": line.strip()})
+    if not files:
+        raise ScanError("no files for the environment-input scan")
+    rows.sort(key=lambda r: (r["file"], r["line"], r["kind"]))
+    return rows
+
+
 def lean_str(s):
     return '"' + s.replace("\\", "\\\\").replace('"', '\\"') + '"'
 
 
-def render_lean(rows, src_root_label, front_end=()):
+def render_lean(rows, src_root_label, front_end=(), env_rows=()):
     out = ["-- GENERATED by checks/c05_scan.py from the Rust sources; do not edit.",
            "import TrustVerif.Model.C05",
            "",
@@ -778,6 +879,13 @@ def render_lean(rows, src_root_label, front_end=()):
             "trust-syntax, outside tests: file, line, text. -/",
             "def frontEndStdHash : List (String × Nat × String) := ["]
     out.append(",\n".join("  (%s, %d, %s)" % (lean_str(f), ln, lean_str(t[:100])) for (f, ln, t) in front_end))
+    out += ["]", "",
+            "/-- Environment inputs (thread-locals, mutable statics, address-derived values, environment, file",
+            "system, wall clock, process/thread ids, threads, explicit randomness, machine info) in the scanned",
+            "part of trust-runtime and in trust-hir / trust-syntax, outside `#[cfg(test)]`. -/",
+            "def envUses : List EnvUse := ["]
+    out.append(",\n".join("  ⟨%s, %d, .%s, %s, %s⟩" % (lean_str(r["file"]), r["line"], r["kind"], lean_str(r["fn"]),
+                                                     lean_str(r["text"][:100])) for r in env_rows))
     out += ["]", "", "end TrustVerif.C05.Gen", ""]
     return "\n".join(out)
 
